@@ -37,6 +37,7 @@ def plan(tier, seed):
         shards += [{"kind": kind, "seed": seed, "shard": i, "n": 120} for i in range(k)]
     shards += [{"kind": "cli", "seed": seed, "shard": i, "n": 12} for i in range(6 if tier == "quick" else 150)]
     shards += [{"kind": "cli_vs_lib", "seed": seed, "shard": i, "n": 15} for i in range(16 if tier == "quick" else 200)]
+    shards += [{"kind": "exact", "seed": seed, "shard": i, "n": 300} for i in range(8 if tier == "quick" else 200)]
     shards += [{"kind": "table", "seed": seed, "shard": 0}]
     shards += [{"kind": "mcp", "seed": seed, "shard": i, "n": 150} for i in range(2 if tier == "quick" else 30)]
     return shards
@@ -339,7 +340,17 @@ def gen_folder(rng, codes):
             lastd = 28
             period = f"01/{MONTH_NAMES[om - 1]}/{oy} to {lastd}/{MONTH_NAMES[om - 1]}/{oy}"
         if label == "nonpositive" and i == 0:
-            rates[0] = (rates[0][0], rng.choice(["0", "-1.25", "0.0000"]))
+            bad = rng.choice(["0", "-1.25", "0.0000"])
+            how = rng.random()
+            if how < 0.4:
+                rates[0] = (rates[0][0], bad)
+            elif how < 0.8:
+                # HMRC files list a currency once per country: the bad value sits on a *repeated* row of a currency whose
+                # first row is fine (every row has to be validated, not only the first of its currency)
+                c0 = rates[0][0]
+                rates = rates + [(c0, bad)] if rng.random() < 0.5 else [rates[0]] + rates[1:] + [(c0, rates[0][1]), (c0, bad)]
+            else:
+                rates[-1] = (rates[-1][0], bad)
         files.append({"name": name, "xml": xml_file(ym[0], ym[1], rates, period), "mtime": 1700000000 + i})
     return files, label
 
@@ -556,6 +567,54 @@ def run_cli_vs_lib(desc):
     return {"evaluations": 2 * desc["n"], "nontrivial_hashes": hashes, "counters": cnt, "violations": cap_viols(viols), "samples": samples}
 
 
+def run_exact(desc):
+    """Conversion is division by the month's rate: an amount that is an exact multiple of the rate must come back as
+    exactly that multiple (a Decimal division of exactly divisible operands is exact). One DIVIDEND line per case; the
+    report's dividend income and tax at full precision are the converted amounts themselves."""
+    rng = rng_for(PROP, desc["seed"], "exact", desc["shard"])
+    codes = table_codes()
+    table = fxm.Table(known_codes())
+    cnt, viols, hashes = Counter(), [], set()
+    cases = []
+    for _ in range(desc["n"]):
+        code = rng.choice(codes)
+        y, m = rng.choice(fxm.bundled_months())
+        rs = table.rates(code, y, m)
+        if not rs or len(set(rs)) > 1:
+            continue
+        g1 = Fraction(rng.randint(1, 10 ** rng.randint(2, 9)), 10 ** rng.choice([0, 2, 3, 5]))
+        g2 = Fraction(rng.randint(0, 99999), 1000)
+        try:
+            a1, a2 = dstr(g1 * rs[0]), dstr(g2 * rs[0])
+        except ValueError:
+            continue
+        if len(a1.replace(".", "")) > 22 or len(a2.replace(".", "")) > 22:
+            continue
+        D_ = iso(dt.date(y, m, rng.randint(1, 28)))
+        # a sterling same-day trade puts a disposal into the dividend's tax year (the all-years report lists years with disposals)
+        txs = [{"date": D_, "ticker": "DIV", "kind": "BUY", "amount": "1", "price": ["1", "GBP"], "fees": ["0", "GBP"]},
+               {"date": D_, "ticker": "DIV", "kind": "SELL", "amount": "1", "price": ["1", "GBP"], "fees": ["0", "GBP"]},
+               {"date": D_, "ticker": "DIV", "kind": "DIVIDEND", "total": [a1, code], "tax": [a2, code]}]
+        cases.append((txs, g1, g2, code, (y, m), rs[0]))
+    obs = probe().run([lc.calc_case(t, fx="bundled") for t, *_ in cases])
+    for (txs, g1, g2, code, ym, rate), o in zip(cases, obs):
+        if "ok" not in o:
+            viols.append({"clause": "exact-multiple-refused", "signature": "exact-multiple-refused", "detail": str(o.get("err"))[:200],
+                          "case": {"op": "exact", "txs": txs, "expect": [str(g1), str(g2)]}})
+            continue
+        cnt["exact_multiples_converted"] += 1
+        hashes.add(sha(txs)[:16])
+        ys = o["ok"]["report"]["tax_years"]
+        got1 = sum((fr(y_["dividend_income"]) for y_ in ys), ZERO)
+        got2 = sum((fr(y_["dividend_tax_paid"]) for y_ in ys), ZERO)
+        if got1 != g1 or got2 != g2:
+            viols.append({"clause": "conversion-is-not-division-by-the-rate", "signature": "conversion-is-not-division-by-the-rate",
+                          "detail": f"{txs[-1]['total'][0]} {code} in {ym[0]}-{ym[1]:02d} at {rate}: exactly {g1} expected, got {got1}"
+                                    f" (tax: {g2} expected, got {got2})",
+                          "case": {"op": "exact", "txs": txs, "expect": [str(g1), str(g2)]}})
+    return {"evaluations": len(cases), "nontrivial_hashes": hashes, "counters": cnt, "violations": cap_viols(viols), "samples": []}
+
+
 def run_table(desc):
     """Whole bundled table: every (currency, month) the tool holds equals the independent parse."""
     cnt = Counter()
@@ -633,7 +692,7 @@ def run_shard(desc):
     if desc["kind"] == "mcp":
         return run_mcp(desc)
     return {"model": run_model, "twin": run_twin, "missing": run_missing, "folder": run_folder, "cli": run_cli,
-            "cli_vs_lib": run_cli_vs_lib, "table": run_table}[desc["kind"]](desc)
+            "cli_vs_lib": run_cli_vs_lib, "exact": run_exact, "table": run_table}[desc["kind"]](desc)
 
 
 def replay(case):
@@ -641,6 +700,16 @@ def replay(case):
         o = probe().one(lc.calc_case(case["txs"], fx="bundled"))
         conv = fxm.converter(fxm.Table(known_codes()))
         return judge_model(case["txs"], o, conv, Counter(), {}, set()), o
+    if case.get("op") == "exact":
+        o = probe().one(lc.calc_case(case["txs"], fx="bundled"))
+        vs = []
+        if "ok" in o:
+            ys = o["ok"]["report"]["tax_years"]
+            got = [sum((fr(y_[k]) for y_ in ys), ZERO) for k in ("dividend_income", "dividend_tax_paid")]
+            if [str(x) for x in got] != [str(Fraction(e)) for e in case["expect"]]:
+                vs.append({"clause": "conversion-is-not-division-by-the-rate", "signature": "conversion-is-not-division-by-the-rate",
+                           "detail": f"expected {case['expect']}, got {[str(x) for x in got]}"})
+        return vs, o
     if case.get("op") == "cli-vs-lib":
         vs, how = exec_cli_vs_lib(case["txs"])
         return vs, {"how": how}
@@ -659,7 +728,7 @@ def finalize(total, tier, seed):
         "every (currency, month) key of the bundled table compared with an independent parse of the XML files"]
 
 
-THRESHOLDS = {"cli_vs_lib_judged": 100, "cli_vs_lib_foreign_on_events_only": 20, "converted_BUY_price": 100, "converted_BUY_fees": 100, "converted_SELL_price": 100, "converted_SELL_fees": 100,
+THRESHOLDS = {"exact_multiples_converted": 1500, "cli_vs_lib_judged": 100, "cli_vs_lib_foreign_on_events_only": 20, "converted_BUY_price": 100, "converted_BUY_fees": 100, "converted_SELL_price": 100, "converted_SELL_fees": 100,
               "converted_DIVIDEND_total": 100, "converted_DIVIDEND_tax": 50, "converted_CAPRETURN_total": 30,
               "converted_ACCUMULATION_total": 30, "twins": 500, "ledgers_straddling_a_month_end": 100,
               "lookups_of_overridden_keys": 200, "bad_folders_rejected": 50, "cli_conversions_at_override_rate": 10,
